@@ -498,19 +498,12 @@ class AbstractExcelInPython(ABC):
         from string import ascii_uppercase
 
         def get_col():
-            array = []
-
-            def get_col_recursive(letters, _col):
-                parent = _col // len(letters)
-                child = _col % len(letters)
-
-                if parent > len(letters):
-                    array.append(get_col_recursive(letters, parent))
-                return (letters[parent - 1] if parent < len(letters) and parent else '') + (
-                    letters[child - 1] if child else '')
-
-            array.append(get_col_recursive(ascii_uppercase, col))
-            return ''.join(array)
+            # буквы столбца: биективная система счисления по основанию 26 (Z -> AA, ZZ -> AAA)
+            letters, number = '', int(col)
+            while number > 0:
+                number, remainder = divmod(number - 1, len(ascii_uppercase))
+                letters = ascii_uppercase[remainder] + letters
+            return letters
 
         if not args:
             return '$' + get_col() + '$' + str(row)
